@@ -272,7 +272,8 @@ class DFTKernel(KernelEvalBase):
             k = kaa * kbb + kab * kba
             dkdX1a = dkaa * kbb[..., None] + dkab * kba[..., None]
             if nspin == 1:
-                dkdX1 = dkdX1a
+                # both (equal) channels depend on the unpolarized input
+                dkdX1 = 2 * dkdX1a
             else:
                 dkdX1b = dkbb * kaa[..., None] + dkba * kab[..., None]
                 dkdX1 = np.concatenate([dkdX1a, dkdX1b], axis=0)
